@@ -1,4 +1,4 @@
 SPECIFICATION Spec
-CONSTANTS Fmt = "csr" Group = "mm" M0 = 1 M1 = 1 K0 = 2 K1 = 2 N0 = 3 N1 = 3 MaxRow = 9 BH = 1 BW = 1 Palette = 1 ArrayLess = FALSE NAlpha = 2
-INVARIANTS RepsValid PatternKept ExactDomain CompleteIsFull Assoc LumpIsMatVec Emit
+CONSTANTS Fmt = "csr" Group = "mm" M0 = 1 M1 = 1 K0 = 2 K1 = 2 N0 = 3 N1 = 3 MaxRow = 9 BH = 1 BW = 1 Palette = 1 ArrayLess = FALSE NAlpha = 2 ABFull = FALSE
+INVARIANTS RepsValid PatternKept ExactDomain CompleteIsFull Assoc LumpIsMatVec DMulLaws Emit
 CHECK_DEADLOCK FALSE
